@@ -125,14 +125,15 @@ theorem project_frame (f : StackFrame) : projectFrame (convertFrame f) = f := by
   simp only [convertFrame, projectFrame, project_variableIds, Option.getD_some]
 
 theorem source_roundtrip {t : Text} (h : watchSources.any (fun n => Text.ofString n == t) = true) :
-    (watchSourceValue t).isSome = true ∧ watchSourceName (watchSourceValue t) = t := by
+    (watchSourceValue t).isSome = true ∧ watchSourceName (watchSourceValue t) = t ∧
+      Option.any inEnum (watchSourceValue t) = true := by
   simp only [watchSources, List.any_cons, List.any_nil, Bool.or_false, Bool.or_eq_true, beq_iff_eq] at h
   rcases h with h | h | h | h <;> subst h <;> decide
 
 theorem project_watch {w : WatchResult} (h : w.wellFormed = true) : projectWatch (convertWatch w) = w := by
   obtain ⟨e, r, er, src⟩ := w
   simp only [WatchResult.wellFormed, Bool.and_eq_true, Bool.not_eq_true', Bool.and_eq_false_iff] at h
-  have hs := (source_roundtrip h.2).2
+  have hs := (source_roundtrip h.2).2.1
   simp only [convertWatch, projectWatch, convertWatchSource, hs]
   cases er with
   | some e' =>
@@ -219,7 +220,7 @@ theorem accepts_watch {w : WatchResult} (h : w.textOk = true) (hw : w.wellFormed
     (convertWatch w).accepts = true := by
   obtain ⟨e, r, er, src⟩ := w
   simp only [WatchResult.textOk, WatchResult.wellFormed, Bool.and_eq_true] at h hw
-  have hs := (source_roundtrip hw.2).1
+  have hs := (source_roundtrip hw.2).2.2
   simp only [convertWatch, PWatchResult.accepts, Bool.and_eq_true, convertWatchSource]
   refine ⟨⟨⟨h.1.1, ?_⟩, h.2⟩, hs⟩
   cases r with
@@ -280,6 +281,8 @@ theorem build_provided (c : AuthCfg) : buildMetadata (provided c) = expectedMeta
     · subst h; simp
     · cases kind with
       | custom md => simp [h]
+      | unloadable => simp [h]
+      | notAProvider => simp [h]
       | basic =>
         simp only [Option.isNone_some, Bool.false_or, beq_iff_eq, Option.some.injEq, h, if_false]
         cases u <;> cases pw <;> simp [basicProvide]
@@ -371,16 +374,19 @@ theorem metadata_recovers (c : AuthCfg) (faults : Nat → Bool) (g : Grpc) (h : 
 
 /-! ### a provider class that cannot be loaded -/
 
-theorem metadata_unloadable (c : AuthCfg) (g : Grpc) (hp : noProvider c.providerName = false) (h : g.cache = none) :
+theorem metadata_unloadable (c : AuthCfg) (g : Grpc) (hp : noProvider c.providerName = false)
+    (hk : c.kind ≠ .notAProvider) (h : g.cache = none) :
     g.metadata c (fun _ => true) = (none, { g with asked := g.asked + 1 }) := by
+  obtain ⟨pn, kind, u, pw⟩ := c
   unfold Grpc.metadata provided
-  simp [h, hp]
+  cases kind <;> simp_all
 
 theorem step_unloadable (c : AuthCfg) (g : Grpc) (op : Op) (hp : noProvider c.providerName = false)
+    (hk : c.kind ≠ .notAProvider)
     (hm : pollMetadataArg = some "self.grpc.metadata()" ∧ sendMetadataArg = some "self.grpc.metadata()")
     (h : g.cache = none) :
     (step c (fun _ => true) g op).1.metadata = none ∧ (step c (fun _ => true) g op).2.cache = none := by
-  have hu := metadata_unloadable c g hp h
+  have hu := metadata_unloadable c g hp hk h
   cases op with
   | poll ts hash res =>
     simp only [step, hm.1, hu]
@@ -395,7 +401,7 @@ theorem step_unloadable (c : AuthCfg) (g : Grpc) (op : Op) (hp : noProvider c.pr
     · exact ⟨rfl, h⟩
     · exact ⟨rfl, h⟩
 
-theorem run_unloadable (c : AuthCfg) (hp : noProvider c.providerName = false)
+theorem run_unloadable (c : AuthCfg) (hp : noProvider c.providerName = false) (hk : c.kind ≠ .notAProvider)
     (hm : pollMetadataArg = some "self.grpc.metadata()" ∧ sendMetadataArg = some "self.grpc.metadata()") :
     ∀ (ops : List Op) (g : Grpc), g.cache = none → ∀ w ∈ run c (fun _ => true) g ops, w.metadata = none := by
   intro ops
@@ -403,7 +409,7 @@ theorem run_unloadable (c : AuthCfg) (hp : noProvider c.providerName = false)
   | nil => intro g _ w hw; cases hw
   | cons op rest ih =>
     intro g h w hw
-    have hs := step_unloadable c g op hp hm h
+    have hs := step_unloadable c g op hp hk hm h
     simp only [run, List.mem_cons] at hw
     rcases hw with rfl | hw
     · exact hs.1
